@@ -30,23 +30,10 @@ def aw_of(f, name):
 
 
 def C10_1(ctx, facts):
-    f = facts.unit(facts.fn(PA), expand=True)
-    ctx.touched(f)
-    oks = [(b, s) for (b, i, s) in f.aggregates("Result", "Ok") if True]
-    oks = [(b, s) for (b, s) in oks if any(st is s for (k, bb, st) in assigns_to_return(f, f.live) if k == "stmt")]
-    ctx.floor("process_all|ok-returns", len(oks), 2, "Ok(outcome) returns")
-    polls = {a["poll"].bb for a in awaits(f)}
-    for (b, s) in oks:
-        rr = f.roots(s["r"]["ops"][0], through_calls=False)
-        ok = rr and all((r.kind == "call" and r.site.bb in polls) or r.kind == "unknown" for r in rr) and any(r.kind == "call" for r in rr)
-        ctx.check(ok, "process_all|ok-identity", "the value returned is the outcome carried by Eyeball::Ok, unchanged", "Ok(..) payload roots %s" % sorted(map(repr, rr)), f.where(b))
-        g, w = f.guarded(b, lambda lab: lab.kind == "variant" and lab.variants == {"Ok"} and (lab.adt or "").endswith("happy_eyeballs::Eyeball"))
-        ctx.check(g, "process_all|ok-only-on-Eyeball::Ok", "success is returned only on an Eyeball::Ok outcome", "Ok returned without an Eyeball::Ok outcome", f.where(b), f.path_desc(w))
-    # every Eyeball::Ok outcome returns immediately (first success wins): from the Ok edge no further await is reachable before return
-    for (a, b, lab) in f.edges():
-        if lab is not None and lab.kind == "variant" and lab.variants == {"Ok"} and (lab.adt or "").endswith("happy_eyeballs::Eyeball"):
-            hit = [p for p in polls if p in f.reach([b])]
-            ctx.check(not hit, "process_all|first-success-returns", "on the first Eyeball::Ok the function returns without awaiting anything else", "after a success another await is reachable", f.where(a))
+    # process_all as a whole is decided by trace equivalence with the specification (patable.py): the first success is
+    # returned at once and unchanged, whatever the shape of the loops
+    import patable
+    patable.table(ctx, facts)
     j = facts.unit(facts.fn(JN), expand=True)
     ctx.touched(j)
     eo = j.aggregates("happy_eyeballs::Eyeball", "Ok")
@@ -63,36 +50,8 @@ def C10_1(ctx, facts):
 
 
 def C10_2_3(ctx, facts):
-    f = facts.unit(facts.fn(PA), expand=True)
-    errs = []
-    for (k, b, x) in assigns_to_return(f, f.live):
-        if k == "call":
-            c = CallSite(f, b, x)
-            if c.matches(r"Option.*::unwrap_or$") and "Result<" in (c.t.get("argtys") or [""])[0]:
-                errs.append(b)
-        elif x["r"].get("v") == "Err":
-            errs.append(b)
-    ctx.floor("process_all|err-returns", len(errs), 1, "failure returns")
-    exhausted = lambda lab: lab.kind == "variant" and lab.variants == {"Exhausted"} and (lab.adt or "").endswith("happy_eyeballs::Eyeball")
-    for b in errs:
-        g, w = f.guarded(b, exhausted)
-        ctx.check(g, "process_all|err-only-when-exhausted", "failure is reported only after the task set is exhausted (every started attempt has finished)",
-                  "failure can be reported while attempts are still running", f.where(b), f.path_desc(w))
-    jn = aw_of(f, "happy_eyeballs::EyeballSet::join_next")
-    jt = aw_of(f, "happy_eyeballs::EyeballSet::join_next_with_timeout")
-    ctx.floor("process_all|drain-await", len(jn), 1, "await of join_next (drain loop)")
-    ctx.floor("process_all|stagger-await", len(jt), 1, "await of join_next_with_timeout (stagger loop)")
-    pops = f.calls("std::collections::VecDeque::pop_front")
-    q_empty = lambda lab: lab.kind == "variant" and lab.variants == {"None"} and f.call_defining(lab.place["l"]) is not None and f.call_defining(lab.place["l"]).bb in {p.bb for p in pops}
-    for a in jn:
-        g, w = f.guarded(a["future"].bb, q_empty)
-        ctx.check(g, "process_all|drain-after-queue-empty", "the drain loop starts only once the queue of unstarted candidates is empty", "drain loop reachable with candidates still queued",
-                  a["future"].where(), f.path_desc(w))
-    # Exhausted arm: only exit besides Ok
-    for (a, b, lab) in f.edges():
-        if lab is not None and lab.kind == "variant" and lab.variants == {"Error"} and (lab.adt or "").endswith("happy_eyeballs::Eyeball"):
-            rets = [r for r in f.returns if f.path(b, [r], avoid_blocks={x["future"].bb for x in jn + jt}) is not None]
-            ctx.check(not rets, "process_all|error-continues", "a failed attempt never ends the procedure by itself (the loop continues)", "an attempt's error returns from process_all", f.where(a))
+    # "failure only when exhausted", "an error never ends the procedure", "the drain loop starts once the queue is empty" are
+    # rows of the process_all trace table (C10.1); here: what join_next must guarantee for that table to mean anything
     j = facts.unit(facts.fn(JN), expand=True)
     ex = j.aggregates("happy_eyeballs::Eyeball", "Exhausted")
     ctx.floor("join_next|Exhausted", len(ex), 1, "constructions of Eyeball::Exhausted")
@@ -117,34 +76,8 @@ def C10_4(ctx, facts):
     for (b, s) in stores:
         g, w = j.guarded(b, L_opt(j, False, lambda rr: any(r.kind == "arg" and "error" in r.desc for r in rr)))
         ctx.check(g, "join_next|first-error-kept", "self.error is written only while it is still None: the first failure observed is the one reported", "a later error can overwrite the first one", j.where(b), j.path_desc(w))
+    # which failure process_all reports (the stored error, NoProgress only without one) is part of the trace table (C10.1)
     f = facts.unit(facts.fn(PA), expand=True)
-    np = f.aggregates("happy_eyeballs::HappyEyeballsError", "NoProgress")
-    ctx.floor("process_all|NoProgress", len(np), 1, "NoProgress constructions")
-    # evaluated on the expanded unit: `error.take().map(Err).unwrap_or(Err(NoProgress))`, an explicit match and a helper
-    # function are the same control flow - NoProgress only on the None edge of self.error.take(), the stored error otherwise
-    took = lambda rr: any(r.kind == "call" and r.site.is_("std::option::Option::take", "core::option::Option::take") and
-                          any(x.kind == "arg" and "error" in x.desc for x in f.roots(r.site.args[0])) for r in rr)
-    none_e = f.edges_where(L_opt(f, False, took))
-    some_e = f.edges_where(L_opt(f, True, took))
-    ctx.floor("process_all|error-take-test", min(len(none_e), len(some_e)), 1, "both edges of the test of self.error.take()")
-    for (bb, i, st) in np:
-        g, w = False, None
-        for (cb, cl) in carriers(f, bb, st["p"]["l"]):
-            g2, w2 = f.guarded(cb, L_opt(f, False, took))
-            g = g or g2
-            w = w or w2
-        ctx.check(g, "process_all|NoProgress-only-without-error", "NoProgress is reported only when no attempt error was stored (None edge of self.error.take())",
-                  "NoProgress can be reported although an attempt failed with an error", f.where(bb), f.path_desc(w))
-    npb = {bb for (bb, i, st) in np}
-    for (x, y) in some_e:
-        p_ = f.path(y, list(npb))
-        ctx.check(p_ is None, "process_all|error-or-NoProgress", "when an error was stored, the failure reported is that error (the first one observed), never NoProgress",
-                  "a stored error can be replaced by NoProgress", f.where(x), f.path_desc(p_))
-        rets = [(k, bb, v) for (k, bb, v) in assigns_to_return(f, f.reach([y]))]
-        ok = any(any(r.kind == "call" and r.site.is_("std::option::Option::take", "core::option::Option::take") for r in
-                     (f.roots(v["r"]["ops"][0]) if k == "stmt" and v["r"]["k"] == "agg" and v["r"].get("ops") else (f.roots(v["r"]["o"]) if k == "stmt" and v["r"]["k"] == "use" else set())))
-                 for (k, bb, v) in rets)
-        ctx.check(ok, "process_all|stored-error-returned", "the value returned then carries the taken error", "the stored error is not what is returned", f.where(x))
     home = {f.nkey} | {norm(k) for k in f.inlined}
     other_np = [g.nkey for g in facts.fns.values() if g.nkey not in home and g.nkey.startswith("happy_eyeballs") and g.aggregates("happy_eyeballs::HappyEyeballsError", "NoProgress")]
     ctx.check(not other_np, "NoProgress|single-source", "NoProgress is produced nowhere else", "NoProgress also produced in %s" % other_np)
@@ -205,8 +138,9 @@ def C10_6(ctx, facts):
 
 
 def C10_7(ctx, facts):
-    import c11
-    c11.every_popped_started(ctx, facts)
+    """A popped candidate is always started: every trace of the table contains one start per candidate popped (patable.py)."""
+    import patable
+    patable.table(ctx, facts, only=lambda n, c: n >= 2 and c in (0, 1))
 
 
 def C10_9(ctx, facts):
@@ -231,33 +165,11 @@ def C10_9(ctx, facts):
 
 
 def C10_8(ctx, facts):
-    """Candidate set-up is not allowed to abort the whole connect: in TcpConnecting::connect every address popped from the
-    list becomes an attempt in the EyeballSet before the next pop / before the set is awaited / before any return.  (An early
-    return - e.g. a `?` on per-candidate socket set-up - would report one candidate's failure although others could still succeed.)"""
-    from core import L_variant
-    f = facts.unit(facts.fn("client::conn::transport::tcp::TcpConnecting::connect::{closure#0}"))
-    ctx.touched(f)
-    pops = f.calls("client::conn::dns::SocketAddrs::pop")
-    pushes = f.calls("happy_eyeballs::EyeballSet::push")
-    ctx.floor("TcpConnecting::connect|pop", len(pops), 1, "addresses.pop()")
-    ctx.floor("TcpConnecting::connect|push", len(pushes), 1, "attempts.push(..)")
-    for p in pops:
-        some = [(a, b) for (a, b, lab) in f.edges() if lab is not None and lab.kind == "variant" and lab.variants == {"Some"} and
-                f.call_defining(lab.place["l"]) is not None and f.call_defining(lab.place["l"]).bb == p.bb]
-        ctx.floor("TcpConnecting::connect|pop-some-edge", len(some), 1, "Some edge of addresses.pop()")
-        mine = {c.bb for c in pushes}
-        for (a, b) in some:
-            targets = [q.bb for q in pops] + list(f.returns) + [t for t in f.live if f.term(t)["k"] == "yield"]
-            bad = None
-            for t in targets:
-                pth = f.path(b, [t], avoid_blocks=mine)
-                if pth is not None:
-                    bad = pth
-                    break
-            ctx.check(bad is None, "TcpConnecting::connect|popped-address-attempted",
-                      "every address popped becomes an attempt of the set before anything else happens: one candidate's set-up cannot end the connect",
-                      "an address can be popped without becoming an attempt (early return / skipped candidate): a single candidate's set-up failure would fail the whole connect",
-                      p.where(), f.path_desc(bad))
+    """Candidate set-up is not allowed to abort the whole connect: every address of the list becomes an attempt of the set
+    before the set is awaited (an early return - e.g. a `?` on per-candidate socket set-up - would report one candidate's
+    failure although others could still succeed).  Decided by the candidate-loop table of candloop.py."""
+    import candloop
+    candloop.table(ctx, facts)
 
 
 RULES = [
